@@ -50,6 +50,10 @@ type Transport struct {
 	dialers map[string]*Dialer
 	// sessionCounter is incremented when a link is created.
 	sessionCounter uint32
+	// notifyQueue holds pending handler notifications, delivered in order.
+	notifyQueue []func()
+	// notifying indicates the notify routine is running.
+	notifying bool
 }
 
 // DialFunc is a function to dial a peer with a string address.
@@ -299,9 +303,38 @@ func (t *Transport) HandleSession(ctx context.Context, sess *quic.Conn) (*Link, 
 		go elnk.Close()
 	}
 	t.links[as] = lnk
-	go t.handler.HandleLinkEstablished(lnk)
+	t.notifyLocked(func() { t.handler.HandleLinkEstablished(lnk) })
 	t.mtx.Unlock()
 	return lnk, nil
+}
+
+// notifyLocked queues a handler notification.
+// notifications are delivered one at a time in the order they were queued:
+// the established report of a link precedes its lost report and the reports of newer links.
+// expects mtx to be locked by the caller.
+func (t *Transport) notifyLocked(fn func()) {
+	t.notifyQueue = append(t.notifyQueue, fn)
+	if !t.notifying {
+		t.notifying = true
+		go t.executeNotify()
+	}
+}
+
+// executeNotify delivers the queued handler notifications.
+func (t *Transport) executeNotify() {
+	for {
+		t.mtx.Lock()
+		if len(t.notifyQueue) == 0 {
+			t.notifying = false
+			t.mtx.Unlock()
+			return
+		}
+		fn := t.notifyQueue[0]
+		t.notifyQueue[0] = nil
+		t.notifyQueue = t.notifyQueue[1:]
+		t.mtx.Unlock()
+		fn()
+	}
 }
 
 // LookupLinkWithAddr returns any link with the given remote addr.
@@ -338,13 +371,12 @@ func (t *Transport) handleLinkLost(addrStr string, lnk *Link) {
 	if rel {
 		delete(t.links, addrStr)
 	}
-	t.mtx.Unlock()
-
 	// the link was announced as established: always announce the loss,
 	// also when a newer session took over its address in the meantime.
 	if t.handler != nil {
-		t.handler.HandleLinkLost(lnk)
+		t.notifyLocked(func() { t.handler.HandleLinkLost(lnk) })
 	}
+	t.mtx.Unlock()
 }
 
 // _ is a type assertion
